@@ -179,6 +179,16 @@ fn main() {
                     let ids: Vec<u16> = c["ids"].as_array().unwrap().iter().map(|x| x.as_u64().unwrap() as u16).collect();
                     run_constructed(&random, c["version"].as_u64().unwrap() as u16, None, &ids, None, &listed)
                 }
+                Some("constructed2") => {
+                    let bigpool: Vec<u8> = (0..70000u32).map(|i| (i % 253) as u8).collect();
+                    let pool: Vec<u8> = (0..48u8).map(|i| i.wrapping_mul(29).wrapping_add(3)).collect();
+                    let sl = c["sid_len"].as_u64().unwrap() as usize;
+                    let el = c["ext_len"].as_u64().unwrap() as usize;
+                    let ids: Vec<u16> = (0..(sl * 7 % 50) as u16).collect();
+                    let mut m = run_constructed(&pool[..32], 0x0303, Some(&bigpool[100..100 + sl]), &ids, Some(&bigpool[..el]), &listed);
+                    m.extend(check_server_sized(sl, el, &bigpool));
+                    m
+                }
                 Some("server") => check_server(c["id"].as_u64().unwrap() as u16, &listed),
                 _ => machinery_failure(run.prop, "unknown replay kind"),
             };
@@ -256,6 +266,33 @@ fn main() {
         }
     }
 
+    // (2b) constructor arguments beyond what the wire allows: session ids of 0..=48, 255, 300 bytes,
+    //      extension blocks up to 70000 bytes, long cipher lists (the constructors must not edit them)
+    let bigpool: Vec<u8> = (0..70000u32).map(|i| (i % 253) as u8).collect();
+    let mut sid_lens: Vec<usize> = (0..=48).collect();
+    sid_lens.extend([255, 256, 300]);
+    for &sl in &sid_lens {
+        for el in [0usize, 1, 3, 65535, 65536, 70000] {
+            if el > 3 && sl % 8 != 1 {
+                continue;
+            }
+            let ids: Vec<u16> = (0..(sl * 7 % 50) as u16).collect();
+            let m = run_constructed(&pool[..32], 0x0303, Some(&bigpool[100..100 + sl]), &ids, Some(&bigpool[..el]), &listed);
+            sink.case(fnv(10, &[sl as u8, (sl >> 8) as u8, el as u8, (el >> 8) as u8]), true);
+            sink.count("constructed (argument size sweep)", if m.is_empty() { "ok" } else { "VIOLATION" });
+            report(&mut sink, "constructed", format!("sid={} bytes ext={} bytes", sl, el), m, json!({"kind":"constructed2","sid_len":sl,"ext_len":el}));
+            let m = check_server_sized(sl, el, &bigpool);
+            sink.evals += 1;
+            report(&mut sink, "server", format!("sid={} bytes ext={} bytes", sl, el), m, json!({"kind":"constructed2","sid_len":sl,"ext_len":el}));
+        }
+    }
+    {
+        let ids: Vec<u16> = (0..40000u32).map(|i| i as u16).collect();
+        let m = run_constructed(&pool[..32], 0xfefd, Some(&bigpool[..33]), &ids, None, &listed);
+        sink.case(fnv(11, b"long"), true);
+        report(&mut sink, "constructed", "40000 ciphers".into(), m, json!({"kind":"constructed2","sid_len":33,"ext_len":0}));
+    }
+
     // (3) cipher lists covering all 65536 ids (256 lists of 256), through every list accessor
     let s3 = par_run(run.threads, 256, |k, sink| {
         let ids: Vec<u16> = (0..256u32).map(|lo| ((k as u32) << 8 | lo) as u16).collect();
@@ -278,9 +315,23 @@ fn main() {
     cov.insert("parsed_hellos".into(), json!(parsed));
     cov.insert("leading_random_words".into(), json!(nwords));
     cov.insert("rule".into(), json!(
-        "every ClientHello of the TLS and DTLS catalogues (parsed), constructed hellos with random slices of every length 0..=40 x 5 versions, leading random words over all single-bit patterns, boundaries and full 2^16 sweeps of the upper and of the lower half-word, cipher lists covering all 65536 ids, ServerHello::new / get_version / get_cipher for all 65536 ids; each trait accessor and helper compared with the structure's own fields (slices by pointer), rand_time / rand_bytes with the big-endian split, cipher_suites / get_ciphers / get_cipher with from_id and with the registry file. Non-trivial: every value"));
+        "every ClientHello of the TLS and DTLS catalogues (parsed), constructed hellos with random slices of every length 0..=40 x 5 versions, session ids of 0..=48 / 255 / 256 / 300 bytes and extension blocks up to 70000 bytes (beyond the wire limits: constructors must not edit their arguments), a 40000-entry cipher list, leading random words over all single-bit patterns, boundaries and full 2^16 sweeps of the upper and of the lower half-word, cipher lists covering all 65536 ids, ServerHello::new / get_version / get_cipher for all 65536 ids; each trait accessor and helper compared with the structure's own fields (slices by pointer), rand_time / rand_bytes with the big-endian split, cipher_suites / get_ciphers / get_cipher with from_id and with the registry file. Non-trivial: every value"));
     let code = run.finish(&sink, cov, vec!["rand_time / rand_bytes are only constrained for randoms of at least 4 bytes (shorter constructed values: no panic)".into()]);
     std::process::exit(code);
+}
+
+fn check_server_sized(sl: usize, el: usize, pool: &[u8]) -> Vec<String> {
+    let r = guarded(|| {
+        let mut out = Vec::new();
+        let sid = &pool[7..7 + sl];
+        let ext = &pool[..el];
+        let sh = TlsServerHelloContents::new(0x0303, &pool[..32], Some(sid), 0xc02f, 1, Some(ext));
+        if !same_opt(sh.session_id, Some(sid)) || !same_opt(sh.ext, Some(ext)) || !same(sh.random, &pool[..32]) {
+            out.push(format!("TlsServerHelloContents::new does not store a {}-byte session id / {}-byte extension block unchanged", sl, el));
+        }
+        out
+    });
+    r.unwrap_or_else(|p| vec![format!("panic: {}", p)])
 }
 
 fn check_server(id: u16, listed: &BTreeSet<u16>) -> Vec<String> {
